@@ -245,8 +245,26 @@ def render_module(mod):
     return "\n".join(out) + "\n"
 
 
-def render_main(p, modname="modul"):
-    """p = ['prog', ['mod', ...], import, ['tops', ...]]"""
+# parameter type of the companion overloads: a Kombination of its own, declared by the renderer.  No generated expression
+# has this type, and its name sorts before every other type name, so the alias trie offers the companion FIRST and the
+# overload that really matches is reached through the argument cache of checkAlias
+OVL_DECL = ('Wir nennen die Kombination aus\n\tder Zahl Yf mit Standardwert 0,\neine Aaovl, und erstellen sie so:\n\t"neu_Aaovl"\n')
+
+
+def r_companion(name, params, alias, out):
+    """a second function with the SAME alias text and parameter kinds but another LAST parameter type (so every argument is parsed for it) (an overloaded alias, as
+    "Inkrementiere <a>" in tests/testdata/kddp/references): calls still resolve to the original by their argument types"""
+    names = [ident(q[0]) for q in params]
+    tys = [("Aaovl Referenz" if q[2] else "Aaovl") if i == len(params) - 1 else (ref_name(q[1]) if q[2] else ty_name(q[1])) for i, q in enumerate(params)]
+    join = lambda xs: xs[0] if len(xs) == 1 else ", ".join(xs[:-1]) + " und " + xs[-1]
+    h = "Die Funktion Y%d mit %s %s vom Typ %s, gibt nichts zurück, macht:" % (name, "dem Parameter" if len(params) == 1 else "den Parametern", join(names), join(tys))
+    out.append("%s\n\tDie Zahl Yv%d ist 1.\nUnd kann so benutzt werden:\n\t\"%s\"\n" % (h, name, " ".join([alias] + ["<%s>" % n for n in names])))
+
+
+def render_main(p, modname="modul", fwd=False, ovl=False):
+    """p = ['prog', ['mod', ...], import, ['tops', ...]]
+    fwd: functions are forward-declared ("wird später definiert") and defined right afterwards ("Die Funktion f macht:")
+    ovl: every function with parameters (also the imported ones) gets a companion overload of its alias"""
     out = []
     imp = p[2]
     if imp[0] == "all":
@@ -256,9 +274,19 @@ def render_main(p, modname="modul"):
         if xs:
             out.append('Binde %s aus "%s" ein.' % (xs[0] if len(xs) == 1 else ", ".join(xs[:-1]) + " und " + xs[-1], modname))
     seen = {}
+    pn = 9000
+    if ovl:
+        out.append(OVL_DECL)
     for d in p[1][1:]:
         if d[0] == "ifun":
             seen[d[2]] = 1
+            params = []
+            for (t, r) in d[3]:
+                pn += 1
+                params.append((pn, t, r == 1))
+            pn += 1
+            if ovl and d[1] == 1 and params and (imp[0] == "all" or (imp[0] == "some" and d[2] in imp[1:])):
+                r_companion(d[2], params, "rufe_%d" % d[2], out)
     for t in p[3][1:]:
         if t[0] == "stmt":
             r_stmt(t[1], 0, out)
@@ -269,10 +297,25 @@ def render_main(p, modname="modul"):
             alias = "rufe_%d" % name if k == 0 else "rufe_%d_%d" % (name, k)   # a re-declared name gets its own alias
             ps = [(q[0], q[1], q[2] == 1) for q in params[1:]]
             h, a = r_fun_header(name, ps, None if ret[1] == "none" else (ret[1], ret[2]), False, alias)
-            out.append(h)
-            r_block(body, 1, out)
-            out.append("Und kann so benutzt werden:\n%s\n" % a)
+            if fwd and k == 0:
+                out.append(h[:-len(" macht:")] + "\nwird später definiert\nund kann so benutzt werden:\n%s\n" % a)
+                out.append("Die Funktion %s macht:" % ident(name))
+                r_block(body, 1, out)
+                out.append("")
+            else:
+                out.append(h)
+                r_block(body, 1, out)
+                out.append("Und kann so benutzt werden:\n%s\n" % a)
+            if ovl and k == 0 and ps:
+                r_companion(name, ps, alias, out)
     return "\n".join(out) + "\n"
+
+
+# which further concrete shapes a program is rendered in besides the plain one (the declaration kinds / call shapes
+# that exist only in the concrete syntax): forward declaration + separate definition; overloaded aliases
+STYLES = {"fwd": dict(fwd=True), "ovl": dict(ovl=True), "fwd+ovl": dict(fwd=True, ovl=True)}
+STYLES_OF_FAULT = {"FMissingReturn": ["fwd"], "FWrongReturn": ["fwd"], "FArticle": ["fwd"],
+                   "FConstRef": ["ovl"], "FWrongArg": ["ovl"], "FUndeclared": ["ovl"], "-": ["fwd", "ovl", "fwd+ovl"]}
 
 
 # ================================================================================================
@@ -320,7 +363,7 @@ class Spec:
                 return None
             if a == "K" or b == "K":
                 return "K"
-            return "Z" if (a == "Z" and b == "Z") else "B"
+            return "B" if (a == "B" and b == "B") else "Z"      # a Byte is widened (5ca8f5e)
         if o == "durch":
             return "K" if num(a) and num(b) else None
         if o == "mod":
@@ -622,13 +665,13 @@ class Gen:
         if c == "empty":
             return ["empty", t[1]] if is_list(t) and not is_struct(t[1]) else None
         if c == "arith":
-            return ["bin", r.choice(["plus", "minus", "mal"]), sub("Z"), sub("Z")]
+            a, b = r.choice([("Z", "Z"), ("Z", "Z"), ("Z", "B"), ("B", "Z")])
+            return ["bin", r.choice(["plus", "minus", "mal"]), sub(a), sub(b)]
         if c == "arithk":
             a, b = r.choice([("K", "K"), ("K", "Z"), ("Z", "K"), ("B", "K"), ("K", "B")])
             return ["bin", r.choice(["plus", "minus", "mal"]), sub(a), sub(b)]
         if c == "arithb":
-            a, b = r.choice([("B", "B"), ("Z", "B"), ("B", "Z")])
-            return ["bin", r.choice(["plus", "minus", "mal"]), sub(a), sub(b)]
+            return ["bin", r.choice(["plus", "minus", "mal"]), sub("B"), sub("B")]
         if c == "durch":
             return ["bin", "durch", sub(r.choice(NUMERIC)), sub(r.choice(NUMERIC))]
         if c == "mod":
@@ -855,6 +898,20 @@ class Gen:
             l = r.choice(["lz", "lt", "lz", "lk"])
             G[0][x] = ("const", LIT_TY[l])
             tops.append(["stmt", ["sconst", "die", x, l]])
+        # every program has the sites of the rarer fault classes: a Zahl variable, a Zahl constant, a value-returning
+        # function with a Referenz parameter, and calls that pass the variable as Referenz
+        gz, kz, fr, pr = self.fresh(), self.fresh(), self.fresh(), self.fresh()
+        G[0][gz] = ("var", "Z")
+        G[0][kz] = ("const", "Z")
+        G[0][fr] = ("fun", None)
+        tops += [["stmt", ["svar", "die", "Z", gz, ["lit", "lz"]]], ["stmt", ["sconst", "die", kz, "lz"]],
+                 ["fun", fr, ["params", [pr, "Z", 1]], ["ret", "die", "Z"],
+                  ["blk", ["assign", pr, ["bin", "plus", ["var", pr], ["var", kz]]], ["ret", ["var", pr]]]],
+                 ["stmt", ["scall", fr, ["var", gz]]]]
+        F = dict(F)
+        F[fr] = ([("Z", True)], "Z")
+        if 31 in F:
+            tops.append(["stmt", ["scall", 31, ["var", gz]]])
         for _ in range(r.randint(3, 9)):
             if r.random() < 0.3:
                 f, sig = self.function(F, G)
@@ -993,7 +1050,12 @@ def work_chunk(args):
         it = dict(kind="base" if f[1] == "-" else "mutant", fault=f[1], site=int(f[2]), ast=ast, wfb=f[3] == "1", check=f[4], patched=f[5])
         it["src"] = render_main(ast)
         it["pywf"] = Spec(mod).wf(ast)
+        it["style"] = "plain"
         items.append(it)
+        for st in STYLES_OF_FAULT.get(it["fault"], []):
+            it2 = dict(it, style=st, src=render_main(ast, **STYLES[st]))
+            items.append(it2)
+    for i, it in enumerate(items):
         jobs.append((i, mainf, it["src"]))
     obs = run_parsex(px, ddppath, jobs)
     modtext = render_module(mod)
@@ -1145,13 +1207,13 @@ def main():
         mdir = os.path.join(scratch, "c%d" % ci)
         os.makedirs(mdir, exist_ok=True)
         open(os.path.join(mdir, "modul.ddp"), "w").write(render_module(mod))
-        src = render_main(p)
+        src = render_main(p, **STYLES.get(c.get("style"), {}))
         o = run_parsex(px, b.dir, [(0, os.path.join(mdir, "main.ddp"), src)])[0]
         mv = run_model(model, ["C " + sx(p)])[0].split()
         fe = first_error(o) if o else None
         results.append(dict(kind="corpus", fault=c.get("name", fn), site=-1, ast=p, wfb=mv[1] == "1", check=mv[2], patched=mv[3], src=src,
                             pywf=Spec(mod).wf(p), obs=o, acc=accepted(o), code=fe["code"] if fe else None, line=fe["sl"] if fe else 0,
-                            dir=mdir, modtext=render_module(mod), idx=-1, expect=c.get("expect")))
+                            dir=mdir, modtext=render_module(mod), idx=-1, expect=c.get("expect"), style=c.get("style", "plain")))
 
     # ---- 2. generated programs and all their mutants --------------------------------------------
     from concurrent.futures import ProcessPoolExecutor
@@ -1221,26 +1283,26 @@ def main():
         # the property: ill-formed => rejected
         if not specwf and it["acc"]:
             why = it["why"]
-            key = "accepted-ill-formed quirk=%s" % why if why else "accepted-ill-formed unexplained fault=%s" % fault
+            key = "accepted-ill-formed quirk=%s" % why if why else "accepted-ill-formed unexplained fault=%s%s" % (fault, "" if it.get("style", "plain") == "plain" else " rendering=" + it["style"])
             if key not in viol_seen:
                 ast = it["ast"]
                 mod = ast[1][1:]
                 def bad(q, mod=mod, it=it):
                     if Spec(mod).wf(q):
                         return False
-                    return accepted(run_parsex(px, b.dir, [(0, os.path.join(it["dir"], "main.ddp"), render_main(q))])[0])
+                    return accepted(run_parsex(px, b.dir, [(0, os.path.join(it["dir"], "main.ddp"), render_main(q, **STYLES.get(it.get("style"), {})))])[0])
                 small = shrink(ast, bad)
                 if explain(model, small) == why:
                     ast = small
                 viol_seen[key] = True
-                if not why and not ck.replay:
+                if not why and not ck.replay and os.path.realpath(vlib.REPO) == "/repo":   # not for seeded / mutated copies
                     # persist the minimised failure: it runs first from now on
                     os.makedirs(cdir, exist_ok=True)
                     cf = os.path.join(cdir, "auto_%s.json" % hashlib.sha1(sx(ast).encode()).hexdigest()[:10])
                     with open(cf, "w") as fh:
-                        json.dump(dict(name="auto: " + key, note="minimised failure found by the check", prog=sx(ast)), fh, indent=1, ensure_ascii=False)
+                        json.dump(dict(name="auto: " + key, note="minimised failure found by the check", style=it.get("style", "plain"), prog=sx(ast)), fh, indent=1, ensure_ascii=False)
                 ck.violation(key, "the frontend accepts a program that is ill-formed by the specification (fault class %s): no error-level diagnostic, module not Faulty" % fault,
-                             dict(fault=fault, mutant_index=it["site"], source=render_main(ast), module_source=it["modtext"], core_program=sx(ast),
+                             dict(fault=fault, mutant_index=it["site"], rendering=it.get("style", "plain"), source=render_main(ast, **STYLES.get(it.get("style"), {})), module_source=it["modtext"], core_program=sx(ast),
                                   model_check=it["check"], model_check_patched=it["patched"], specification="ill-formed (Python oracle and Coq wfb)",
                                   implementation=dict(accepted=True, diagnostics=(it["obs"] or {}).get("diags")),
                                   how="write module_source to modul.ddp and source to main.ddp in one directory; feed {\"id\":\"x\",\"file\":\"<dir>/main.ddp\"} to .cache/<hash>/go-*/parsex; or run kddp kompiliere main.ddp"))
